@@ -469,8 +469,13 @@ func VerifC07Deep() { // as Bytes, all six shapes, full-size neighbours
 	verifC07(c07Rich(6), c07ByteDamages[zzverif.Choice("dmg", 3)], 1)
 }
 
-func VerifC07Deep2() { // two arbitrary bytes, every shape, between a transaction and an account directive
-	verifC07(c07Of(1, c07NbTx, zzverif.Choice("e.kind", 6), 1), c07ByteDamages[zzverif.Choice("dmg", 2)], 2)
+func VerifC07Deep2() { // two arbitrary bytes at every offset of every directive shape and of a short transaction
+	e := []int{1, 2, 3, 4, c07NbTx2}[zzverif.Choice("e.kind", 5)]
+	j := c07Of(1, 2, e, c07NbTx2)
+	if e == c07NbTx2 {
+		j = c07Of(1, 2, e, 1)
+	}
+	verifC07(j, c07ByteDamages[zzverif.Choice("dmg", 2)], 2)
 }
 
 func VerifC07LinesDeep() { // line damages with every shape at every place
